@@ -136,12 +136,47 @@ def body_resume_without_error(h):
     return [impl.interpreter.error_num]
 
 
+def body_high_line(h):
+    """ERL for a failing statement on a line number above 32767"""
+    prog = [b'10 ON ERROR GOTO 60000', b'40000 M%=1: ERROR E%: M%=M%+10: END',
+            b'60000 C%=ERR: L!=ERL: IF L!=40000 THEN K%=1', b'60010 RESUME NEXT']
+    impl = _setup(h, prog, [b'M%', b'E%', b'C%', b'K%'])
+    e = h.bytes('e', 2)
+    E = s16(e)
+    h.assume(s_and(E >= 1, E <= 255))
+    session.poke_int(h, impl, b'E%', e)
+    impl.execute(b'GOTO 10')
+    h.require('erl-reports-line-40000', _geti(impl, b'K%') == 1)
+    h.require('err', _geti(impl, b'C%') == E)
+    h.require('resumed', _geti(impl, b'M%') == 11)
+    return [_geti(impl, b'K%')]
+
+
+def body_direct_mode_error(h):
+    """an error in a direct-mode line while the program's handler is still armed"""
+    prog = [b'10 ON ERROR GOTO 100', b'20 M%=1: END', b'100 C%=ERR: H%=H%+1: RESUME NEXT']
+    impl = _setup(h, prog, [b'M%', b'E%', b'C%', b'H%', b'D%'])
+    e = h.bytes('e', 2)
+    E = s16(e)
+    h.assume(s_and(E >= 1, E <= 255, E != 2))
+    session.poke_int(h, impl, b'E%', e)
+    impl.execute(b'GOTO 10')
+    impl.execute(b'D%=1: ERROR E%: D%=D%+10')
+    C, H, D, M = [_geti(impl, n) for n in (b'C%', b'H%', b'D%', b'M%')]
+    h.require('handler-runs-once', s_and(H == 1, C == E))
+    h.require('resume-next-continues-the-direct-line', D == 11)
+    h.require('program-not-rerun', M == 1)
+    return [C, H, D, M]
+
+
 def cases(tier):
     cs = [Case('fault-resume', body_fault, timeout_s=1500),
           Case('error-n', body_error_n, params={'sub': False}, max_fanout=300),
           Case('error-n-in-gosub', body_error_n, params={'sub': True}, max_fanout=300),
           Case('error-in-handler', body_in_handler, max_fanout=300),
-          Case('no-handler', body_no_handler, max_fanout=300)]
+          Case('no-handler', body_no_handler, max_fanout=300),
+          Case('erl-high-line-number', body_high_line, max_fanout=300),
+          Case('direct-mode-error-with-handler', body_direct_mode_error, max_fanout=300)]
     for f in ('plain', 'next', 'line'):
         cs.append(Case('resume-without-error-' + f, body_resume_without_error, params={'form': f}))
     return cs
